@@ -828,7 +828,9 @@ def bset(size, cap, e, small=False, limit_edge=True):
     allocation limit when `limit_edge`)"""
     vs = [0, 1, 2, size - 1, size, size + 1, cap - 1, cap, cap + 1,
           2 ** 31 - 1, 2 ** 31 + 1, 2 ** 32 - 1, 2 ** 32 + 1,
-          M // e - 1, M // e, M // e + 1, 2 ** 63, M - 2, M - 1, M]
+          M // e - 1, M // e, M // e + 1, 2 ** 63, M - 2, M - 1, M,
+          # sizes at which a geometric growth policy (x1.5, x2, x1.25) would wrap
+          (M + 1) * 2 // 3 - 1, (M + 1) * 2 // 3, (M + 1) * 2 // 3 + 5, (M + 1) * 4 // 5 + 1, (M + 1) // 3 * 2 // e + 1]
     if not small:
         vs += [2 ** 31, 2 ** 32, 2 ** 63 - 1, 2 ** 63 + 1, M - 3]
         if limit_edge:
